@@ -908,10 +908,14 @@ class Interp:
                 return l > r
             if isinstance(op, ast.GtE):
                 return l >= r
-            if isinstance(op, ast.In):
-                return l in r
-            if isinstance(op, ast.NotIn):
-                return l not in r
+            if isinstance(op, (ast.In, ast.NotIn)):
+                if isinstance(r, (bytes, bytearray)) and hasattr(l, "concrete") and hasattr(l, "cells"):
+                    # `data[4:5] in b"QP"`: a slice of a symbolic datagram as the needle of a bytes containment
+                    lc = l.concrete()
+                    if lc is None:
+                        raise Undecided("containment of symbolic bytes in a byte string")
+                    l = lc
+                return (l in r) if isinstance(op, ast.In) else (l not in r)
         except (Undecided, PyRaise):
             raise
         except Exception as ex:
